@@ -135,7 +135,7 @@ def run(facts, rep, tier):
     rep.analysed["send_sites_classified"] = n
     for f_, why in REQUIRE_MASK.items():
         rep.ob("C03.M", "anchor:%s" % f_, any(k.startswith(f_) for k in table), "masking protocol %s has Send sites" % f_)
-    rep.floor("C03.M", "messages of the named masking protocols", sum(1 for k in table if any(k.startswith(f_) for f_ in REQUIRE_MASK)), 10)
+    rep.floor("C03.M", "messages of the named masking protocols", sum(1 for k in table if any(k.startswith(f_) for f_ in REQUIRE_MASK)), 8)
 
 
 def reveal(facts, rep):
